@@ -31,6 +31,14 @@ CONTAINERS = ["Sequential", "Attr", "ModuleList", "ModuleDict"]
 WQ = ["qint8", "qfloat8", "qfloat8_e4m3fn", "qfloat8_e5m2", "qint4", "qint2"]
 
 
+class TaggedLinear(nn.Linear):
+    """a user subclass that changes nothing (e.g. carries a tag for a later pass)"""
+
+
+class TaggedConv2d(nn.Conv2d):
+    pass
+
+
 class Attr(nn.Module):
     def __init__(self, children):
         super().__init__()
@@ -42,6 +50,9 @@ def _leaf(kind, dt):
     torch.manual_seed(0)
     m = {
         "Linear": lambda: nn.Linear(4, 3),
+        "SubLinear": lambda: TaggedLinear(4, 3),
+        "NDQLinear": lambda: nn.modules.linear.NonDynamicallyQuantizableLinear(4, 3),
+        "SubConv2d": lambda: TaggedConv2d(2, 3, 2, stride=(2, 1), padding=1),
         "Conv2d": lambda: nn.Conv2d(2, 3, 2, stride=(2, 1), padding=1),
         "LayerNorm": lambda: nn.LayerNorm(4),
         "ReLU": lambda: nn.ReLU(),
@@ -67,8 +78,16 @@ def _build(tree, dt):
     return nn.ModuleDict({f"k{i}": k for i, k in enumerate(kids)})
 
 
+SUB_LEAVES = ["SubLinear", "NDQLinear", "SubConv2d"]
+
+
 def _trees():
     out = [leaf for leaf in LEAVES]
+    # instances of subclasses of the eligible classes are Linear / Conv2d modules too
+    for leaf in SUB_LEAVES:
+        out.append(("Sequential", [leaf]))
+        out.append(("Attr", [leaf, "ReLU"]))
+        out.append(("ModuleDict", [("Sequential", [leaf, "LayerNorm"]), "Linear"]))
     for c in CONTAINERS:
         for k in (1, 2, 3):
             for ls in itertools.product(LEAVES, repeat=k):
@@ -109,6 +128,9 @@ def _eligible(m, activations):
 
 HYPER = {
     "Linear": ["in_features", "out_features"],
+    "TaggedLinear": ["in_features", "out_features"],
+    "NonDynamicallyQuantizableLinear": ["in_features", "out_features"],
+    "TaggedConv2d": ["in_channels", "out_channels", "kernel_size", "stride", "padding", "dilation", "groups", "padding_mode"],
     "Conv2d": ["in_channels", "out_channels", "kernel_size", "stride", "padding", "dilation", "groups", "padding_mode"],
     "LayerNorm": ["normalized_shape", "eps", "elementwise_affine"],
 }
@@ -181,8 +203,10 @@ def _structure_task(task, out):
                     filters = [None] + [list(s) for k in range(0, len(elig) + 1) for s in itertools.combinations(elig, k)]
                     if non_elig:
                         filters.append([non_elig[0]])
-                    for flt in filters:
-                        c = [task["lo"] + ti, dtname, wname, aname, flt]
+                    # the first trees are also quantized twice (the second call, with another configuration, must win everywhere)
+                    variants = [(f, False) for f in filters] + ([(None, True)] if (task["lo"] + ti < 120 and not isinstance(tree, str)) else [])
+                    for flt, twice in variants:
+                        c = [task["lo"] + ti, dtname, wname, aname, flt] + (["twice"] if twice else [])
                         if only and only != c:
                             continue
                         model = _build(tree, dt)
@@ -191,7 +215,7 @@ def _structure_task(task, out):
                                       m.bias.detach().clone() if getattr(m, "bias", None) is not None else None) for n, m in before.items()}
                         sel = None if flt is None else [before[n] for n in flt]
                         root_eligible = _eligible(model, aname) is not None and (flt is None or "" in flt)
-                        fields = {"kind": "structure", "weights": wname, "activations": aname, "dtype": dtname, "filtered": flt is not None, "root_eligible": root_eligible}
+                        fields = {"kind": "structure", "weights": wname, "activations": aname, "dtype": dtname, "filtered": flt is not None, "root_eligible": root_eligible, "twice": twice}
                         case = dict(task, only=c)
                         out["evals"] += 1
                         out["calls"] += 1
@@ -202,6 +226,8 @@ def _structure_task(task, out):
                         if aname:
                             kw["activations"] = num.qt(aname)
                         try:
+                            if twice:
+                                quantize(model, weights=num.qt("qint4" if wname == "qint8" else "qint8"))
                             quantize(model, modules=sel, **kw)
                         except Exception as e:  # noqa
                             out["violations"].append(violation(PID, case, dict(fields, sub="raised"), f"raised: quantize() of tree {tree} filter {flt}: {type(e).__name__}: {e}"))
